@@ -267,6 +267,13 @@ SPECIAL = [
     '[C@@]1(F)(Cl)CCO1', 'OC[C@H]1O[C@@H](O)[C@H](O)[C@@H](O)[C@@H]1O', 'O[C@]12CCC[C@@]1(N)CC2', 'C1CC[C@]12CCCO2',
     'CO[C@@H]1CC[C@@]2(CC1)Cc3ccc(cc3C24N=C(C)C(=N4)N)c5cncc(Br)c5',
     'Oc1ccc2C[C@H]3N(CC4CC4)CC[C@@]56[C@@H](Oc1c25)c7[nH]c8ccccc8c7C[C@@]36O', 'C[C@@]12CC[C@H]1[C@@H]1CCC3=CC(=O)CC[C@]3(C)[C@H]1CC2',
+    # pseudo-asymmetric centre whose two arms differ only in configuration, next to an even group of constitutionally equivalent
+    # labelled centres in UNEQUAL proportion (3:1): the dependent centre is labelled in the reader's second pass and needs the
+    # stereo-aware refinement (_chiral_morgan / __differentiation) to separate the arms; both epimers, Cl / F / OH arms, and 2:2
+    'C[C@H](Cl)C([C@H](C)Cl)C[C@@H]([C@@H](C)Cl)[C@H](C)Cl', 'C[C@H](Cl)C([C@H](C)Cl)C[C@H]([C@@H](C)Cl)[C@H](C)Cl',
+    'C[C@H](F)C([C@H](C)F)C[C@@H]([C@@H](C)F)[C@H](C)F', 'C[C@H](F)C([C@H](C)F)C[C@H]([C@@H](C)F)[C@H](C)F',
+    'C[C@H](O)C([C@@H](C)O)C[C@@H]([C@@H](C)O)[C@H](C)O', 'C[C@H](Cl)[C@@H]([C@@H](C)Cl)C[C@H]([C@@H](C)Cl)[C@H](C)Cl',
+    'C[C@H](Cl)[C@H]([C@@H](C)Cl)CC[C@@H]([C@@H](C)Cl)[C@H](C)Cl', 'C[C@H](Br)C([C@H](C)Br)CC[C@@H]([C@@H](C)Br)[C@H](C)Br',
     'C[S@](=O)CC', 'C[S@@](=O)c1ccccc1', 'C[P@](=O)(O)Cl', 'C[N@+](CC)(CCC)CCCC', 'C[Si@](F)(Cl)Br', '[C@H](C)(N)O',
     '[C@@H]1(C)CCCO1', 'C[C@H](O)[C@@H](N)C', 'C[C@H](O)[C@H](O)C', 'C[C@H]([CH2])O',
     # allenes / cumulenes
@@ -329,6 +336,34 @@ def api_molecules():
     return out
 
 
+def forced_variants(name, m):
+    """molecules that carry a tetrahedral label the SMILES reader did not put there: every unlabelled carbon that can be a
+    tetrahedral centre gets a label (both values) through the attribute, the way search_stereoisomers flips labels; kept only
+    when RDKit, reading the text chython writes for the variant, counts that atom as a stereocentre (so that a centre which is
+    not stereogenic is never asked to survive).  Reaches molecules the reader itself would refuse to label."""
+    from rdkit import Chem
+    out = []
+    try:
+        cand = [n for n, a in m.atoms() if a.stereo is None and a.atomic_number == 6 and n in m.stereogenic_tetrahedrons]
+    except Exception:
+        return out
+    for n in cand[:6]:
+        for val in (True, False):
+            c = m.copy()
+            c._atoms[n]._stereo = val
+            c.flush_cache()
+            try:
+                text = str(c)
+                pos = list(c.smiles_atoms_order).index(n)
+            except Exception:
+                continue
+            rd = Chem.MolFromSmiles(text.split(' ')[0])
+            if rd is None or pos not in dict(Chem.FindMolChiralCenters(rd, useLegacyImplementation=False)):
+                continue
+            out.append((f'api:forced-label:{name}:{n}:{int(val)}', c))
+    return out
+
+
 def pool(ck):
     """(name, molecule) pairs of the correspondence and of the search: special cases, corpus sample, stereo corpus sample,
     random renumberings of part of them (other atom numbers, other dict insertion order)"""
@@ -336,6 +371,13 @@ def pool(ck):
     rng = random.Random(f'{ck.seed}:c02pool')
     quick = ck.tier == 'quick'
     mols = special_molecules() + api_molecules()
+    from rdkit import RDLogger
+    RDLogger.DisableLog('rdApp.*')
+    forced = []
+    for name, m in list(mols):
+        if '@' in name and name.count('@') >= 4:
+            forced.extend(forced_variants(name, m))
+    mols += forced[:24]
     for salt, src, k in (('lipo', corpus.lipo(), 70 if quick else 500), ('stereo', corpus.stereo_smiles(), 45 if quick else 300)):
         for smi in corpus.sample(src, k, ck.seed, 'c02' + salt):
             try:
@@ -1152,6 +1194,24 @@ def search_ring_stereo(ck, n_mols, n_orders):
     return found
 
 
+def search_forced_labels(ck, mols, limit):
+    """a label on a centre RDKit regards as stereogenic must survive write -> read, also when chython's own reader would not have
+    put it there (dependent / pseudo-asymmetric centres that need the stereo-aware refinement)"""
+    found = 0
+    n = 0
+    for name, m in mols:
+        if n >= limit:
+            break
+        if name.startswith('api:') or '#' in name or not sum(n_labels(m)):
+            continue
+        n += 1
+        for vname, c in forced_variants(name, m):
+            ck.count('roundtrip:forced-label-variants')
+            found += roundtrip(ck, vname, c, '', 0)
+            found += roundtrip(ck, vname, c, 'r', f'{ck.seed}:forced:{vname}')
+    return found
+
+
 def search(ck, mols):
     quick = ck.tier == 'quick'
     rng = random.Random(f'{ck.seed}:c02search')
@@ -1159,6 +1219,7 @@ def search(ck, mols):
     sub = mols if not quick else ([x for x in mols if x[0] in SPECIAL_SET or x[0].startswith('api:')] + rng.sample(rest, min(110, len(rest))))
     found = search_roundtrip(ck, sub, n_random=3 if quick else 5, full=not quick)
     found += search_ring_stereo(ck, 45 if quick else 600, 10 if quick else 25)
+    found += search_forced_labels(ck, mols, 250 if quick else 2000)
     stereo_mols = [x for x in mols if sum(n_labels(x[1])) > 0 and '#' not in x[0]]
     found += search_stereoisomers(ck, stereo_mols if not quick else stereo_mols[:90], max_labels=5 if quick else 8)
     found += search_small_graphs(ck, 4 if quick else 5, DECOR[:5] if quick else DECOR, 3 if quick else 4)
